@@ -703,10 +703,27 @@ func (w *w5World) runSurveys(log *w5SurveyLog) {
 			s.Event("survey %s returned n=%d err=%v", o.token, len(o.res), o.err)
 		})
 	}
-	for range sc.Surveys {
-		<-done
+	// wait for the surveys, but not forever: a Survey that is still running well after
+	// its deadline is itself a violation (it must return at the deadline at the latest)
+	maxWait := time.Duration(0)
+	for _, sv := range sc.Surveys {
+		to := time.Duration(sv.TimeoutMs) * time.Millisecond
+		if to == 0 {
+			to = 10 * time.Second
+		}
+		if w := time.Duration(sv.AtUs)*time.Microsecond + to; w > maxWait {
+			maxWait = w
+		}
 	}
-	s.Pause()
+	s.Sleep(maxWait + 3*time.Second)
+	for i, o := range outs {
+		if o == nil || o.returned == 0 {
+			s.Probe("nontrivial:C41")
+			s.Violate("C41", "never-returned", "Survey did not return by its deadline", "survey %d (from node %d, timeout %dms) had not returned 3 s after its deadline", i, sc.Surveys[i].From, sc.Surveys[i].TimeoutMs)
+			outs[i] = nil
+		}
+	}
+	_ = done
 	faulty := sc.DropPm+sc.DupPm+sc.DelayPm > 0
 	for _, o := range outs {
 		if o == nil {
